@@ -244,6 +244,12 @@ func (f *SQLFormatter) formatSetOperation(stmt *ast.SetOperation) error {
 
 // formatInsert formats INSERT statements
 func (f *SQLFormatter) formatInsert(stmt *ast.InsertStatement) error {
+	if stmt.With != nil {
+		if err := f.formatWithClause(stmt.With); err != nil {
+			return err
+		}
+		f.writeNewline()
+	}
 	f.writeKeyword("INSERT INTO")
 	f.builder.WriteString(" " + stmt.TableName)
 
@@ -269,21 +275,55 @@ func (f *SQLFormatter) formatInsert(stmt *ast.InsertStatement) error {
 	if stmt.Query != nil {
 		f.writeNewline()
 		if sel, ok := stmt.Query.(*ast.SelectStatement); ok {
-			return f.formatSelect(sel)
-		}
-		// For SetOperation or other statement types, use Format if available
-		if fmtable, ok := stmt.Query.(interface {
+			if err := f.formatSelect(sel); err != nil {
+				return err
+			}
+		} else if fmtable, ok := stmt.Query.(interface {
 			Format(ast.FormatOptions) string
 		}); ok {
+			// For SetOperation or other statement types, use Format if available
 			f.builder.WriteString(fmtable.Format(ast.FormatOptions{}))
 		}
 	}
 
+	// upsert clauses and RETURNING are written by the AST's serialiser
+	f.builder.WriteString(ast.OnConflictSQL(stmt.OnConflict))
+	f.builder.WriteString(ast.OnDuplicateKeySQL(stmt.OnDuplicateKey))
+	f.formatReturning(stmt.Returning)
+
 	return nil
 }
 
-// formatUpdate formats UPDATE statements
+// formatFrameBound writes a window frame bound with its offset expression, if it has one.
+func (f *SQLFormatter) formatFrameBound(b *ast.WindowFrameBound) error {
+	if b.Value != nil {
+		if err := f.formatExpression(b.Value); err != nil {
+			return err
+		}
+		f.builder.WriteString(" ")
+	}
+	f.builder.WriteString(b.Type)
+	return nil
+}
+
+// formatReturning writes a RETURNING clause (nothing when the list is empty).
+func (f *SQLFormatter) formatReturning(exprs []ast.Expression) {
+	if len(exprs) == 0 {
+		return
+	}
+	f.writeNewline()
+	f.writeKeyword("RETURNING")
+	f.builder.WriteString(" ")
+	f.formatExpressionList(exprs, ", ")
+}
+
 func (f *SQLFormatter) formatUpdate(stmt *ast.UpdateStatement) error {
+	if stmt.With != nil {
+		if err := f.formatWithClause(stmt.With); err != nil {
+			return err
+		}
+		f.writeNewline()
+	}
 	f.writeKeyword("UPDATE")
 	f.builder.WriteString(" " + stmt.TableName)
 
@@ -315,12 +355,19 @@ func (f *SQLFormatter) formatUpdate(stmt *ast.UpdateStatement) error {
 			return err
 		}
 	}
+	f.formatReturning(stmt.Returning)
 
 	return nil
 }
 
 // formatDelete formats DELETE statements
 func (f *SQLFormatter) formatDelete(stmt *ast.DeleteStatement) error {
+	if stmt.With != nil {
+		if err := f.formatWithClause(stmt.With); err != nil {
+			return err
+		}
+		f.writeNewline()
+	}
 	f.writeKeyword("DELETE FROM")
 	f.builder.WriteString(" " + stmt.TableName)
 
@@ -336,6 +383,7 @@ func (f *SQLFormatter) formatDelete(stmt *ast.DeleteStatement) error {
 			return err
 		}
 	}
+	f.formatReturning(stmt.Returning)
 
 	return nil
 }
@@ -971,13 +1019,20 @@ func (f *SQLFormatter) formatWindowSpec(spec *ast.WindowSpec) error {
 		}
 		f.writeKeyword(spec.FrameClause.Type)
 		f.builder.WriteString(" ")
-		f.writeKeyword("BETWEEN")
-		f.builder.WriteString(" ")
-		f.builder.WriteString(spec.FrameClause.Start.Type)
+		if spec.FrameClause.End != nil {
+			f.writeKeyword("BETWEEN")
+			f.builder.WriteString(" ")
+		}
+		if err := f.formatFrameBound(&spec.FrameClause.Start); err != nil {
+			return err
+		}
 		if spec.FrameClause.End != nil {
 			f.builder.WriteString(" ")
 			f.writeKeyword("AND")
-			f.builder.WriteString(" " + spec.FrameClause.End.Type)
+			f.builder.WriteString(" ")
+			if err := f.formatFrameBound(spec.FrameClause.End); err != nil {
+				return err
+			}
 		}
 	}
 
